@@ -120,6 +120,37 @@ def decoder(v):
     return '?'
 
 
+def padding_stripped(v):
+    """characters a decoded text value is stripped of: {'ws', 'nul'} when both kinds of padding that NTv2 writers use are removed"""
+    got = set()
+    for k in v.atoms(deep=True):
+        a = alg.TABLE.atoms[k]
+        if a.kind == 'fn' and a.name in ('method:strip', 'method:rstrip'):
+            chars = [x for x in a.args[1:] if isinstance(x, str)]
+            if not chars:
+                got.add('ws')
+            for c in chars:
+                body = c[4:-1] if c.startswith('str<') else c
+                if '\x00' in body:
+                    got.add('nul')
+                if ' ' in body:
+                    got.add('ws')
+    return got
+
+
+def text_padding_rule(rep, w, key, name, v):
+    """the 8-byte text values are padded with blanks by some writers and with NUL bytes by others: metadata reads back as written only when
+    both are removed (a NUL-padded 'GDA94' would otherwise come back as 'GDA94\x00\x00\x00' - and so would the keys of the sub-grid table)"""
+    got = padding_stripped(v)
+    if got >= {'ws', 'nul'}:
+        rep.holds('R-FORMAT', key, w, '%s: blank and NUL padding both removed' % name)
+    else:
+        rep.violated('R-FORMAT', key, w, 'the text value %s is stripped of %s only: a value padded with %s keeps its padding (\'GDA94\\x00\\x00\\x00\' instead of \'GDA94\')'
+                     % (name, ' and '.join(sorted({'ws': 'blanks', 'nul': 'NUL bytes'}[g] for g in got)) or 'nothing',
+                        ' or '.join(sorted({'ws': 'blanks', 'nul': 'NUL bytes'}[g] for g in {'ws', 'nul'} - got))),
+                     expected="strip('\\x00').strip()", actual=alg.fmt(v, 6)[:120])
+
+
 def layout_rules(repo, rep):
     f = repo.func('geodepy.ntv2reader', 'read_ntv2_file')
     rep.analysed(f)
@@ -141,6 +172,8 @@ def layout_rules(repo, rep):
         d = decoder(v)
         if o == off and s == size and d == kind:
             rep.holds('R-AFFINE', key, w, '%s: %d bytes at offset %d decoded as %s' % (name, size, off, kind))
+            if kind == 'str':
+                text_padding_rule(rep, w, 'R-FORMAT::geodepy/ntv2reader.py::read_ntv2_file::header::%s::padding' % name, name, v)
         else:
             rep.violated('R-AFFINE', key, w, 'overview header field %s is read as %s bytes at offset %s decoded as %s; the NTv2 layout has %d bytes at %d (%s)' % (name, s, o, d, size, off, kind),
                          expected='%d@%d %s' % (size, off, kind), actual='%s@%s %s' % (s, o, d))
@@ -173,6 +206,8 @@ def layout_rules(repo, rep):
         got_digits = rounds.get(alg.fmt(b[0]))
         if o == off and s == size and d == kind and (digits is None or got_digits == digits):
             rep.holds('R-AFFINE', key, w, '%s: %d bytes at sub-grid offset %d decoded as %s%s' % (name, size, off, kind, '' if digits is None else ', rounded to %d decimals' % digits))
+            if kind == 'str':
+                text_padding_rule(rep, w, 'R-FORMAT::geodepy/ntv2reader.py::read_ntv2_file::subheader::%s::padding' % name, name, v)
         elif o == off and s == size and d == kind:
             rep.violated('R-AFFINE', key, w, '%s is rounded to %s decimals; the property needs %d (extents 0.001", increments 1e-6")' % (name, got_digits, digits),
                          expected=str(digits), actual=str(got_digits))
@@ -655,6 +690,7 @@ def run(repo, rep):
     # a grid object owns its sub-grids: no container shared between grids through a default argument
     from . import common
     common.mutable_default_rule(repo, rep, ['geodepy.ntv2reader'])
+    common.iterator_reuse_rule(repo, rep, ['geodepy.ntv2reader'])
     rep.floor('R-TABLE', 8, 'four fields of two interpolators')
 
 
@@ -667,5 +703,6 @@ def controls(repo):
     out.append(('longitude-wrap-on-the-boundary', text_variant(repo, 'geodepy/ntv2reader.py', "    # convert decimal degrees to arc-seconds\n    lat = lat * 3600\n",
                                                                   "    if lon >= 180:\n        lon = lon - 360\n    # convert decimal degrees to arc-seconds\n    lat = lat * 3600\n"), 'position-longitude', selection_rules))
     out.append(('subgrids-sorted', text_variant(repo, 'geodepy/ntv2reader.py', "        return grid\n\n\ndef interpolate_ntv2", "        grid.subgrids = dict(sorted(grid.subgrids.items()))\n        return grid\n\n\ndef interpolate_ntv2"), 'subgrids', order_rules))
+    out.append(('nul-padding-kept', text_variant(repo, 'geodepy/ntv2reader.py', "            sub_name = byte.decode('utf').strip('\\x00').strip()", "            sub_name = byte.decode('utf').strip()"), 'subheader::sub_name::padding', layout_rules))
     out.append(('header-offset', text_variant(repo, 'geodepy/ntv2reader.py', "            # GS_COUNT\n            f.seek(8, 1)\n            byte = f.read(4)", "            # GS_COUNT\n            f.seek(4, 1)\n            byte = f.read(4)"), 'read_ntv2_file', layout_rules))
     return out
